@@ -29,8 +29,8 @@ ASSUMPTIONS = [
     "objects are picklable by construction (classes importable from vlib.userclasses)",
 ]
 SHARDS = {"quick": 12, "thorough": 14}
-FLOORS = {"quick": {"huge_run_payloads": 3, "round_trips": 2500, "renamed_loads": 1500, "aliased_objects": 100, "big_payloads": 40, "dumps_over_older_longer_content": 500},
-          "thorough": {"huge_run_payloads": 60, "round_trips": 50000, "renamed_loads": 30000, "aliased_objects": 2000, "big_payloads": 800, "dumps_over_older_longer_content": 10000}}
+FLOORS = {"quick": {"huge_run_payloads": 3, "round_trips": 2500, "renamed_loads": 1500, "aliased_objects": 100, "big_payloads": 40, "dumps_over_older_longer_content": 500, "loads_from_a_file_positioned_after_a_header": 250, "objects_with_a_magic_number_inside_their_pickle": 30},
+          "thorough": {"huge_run_payloads": 60, "round_trips": 50000, "renamed_loads": 30000, "aliased_objects": 2000, "big_payloads": 800, "dumps_over_older_longer_content": 10000, "loads_from_a_file_positioned_after_a_header": 5000, "objects_with_a_magic_number_inside_their_pickle": 600}}
 
 EXTS = ["", ".pkl", ".z", ".gz", ".bz2", ".xz", ".lzma"]
 METHODS = ["zlib", "gzip", "bz2", "lzma", "xz"]
@@ -65,8 +65,38 @@ def gen_compress(rng):
     return (rng.choice(METHODS), rng.choice([1, 3, 3, 6, 9, None]) if rng.random() < 0.9 else 0)
 
 
+MAGICS = [b"ZF", b"\x1f\x8b", b"BZ", b"x\x9c", b"x\x01", b"]\x00", b"\xfd7"]
+
+
+def magic_collision(rng):
+    """an object whose NOT compressed pickle carries the first bytes of a compressor's (or the legacy format's) magic
+    number a few bytes into the stream: as the value of a small int, as the length of a str / bytes object, or as the
+    length of the first pickle frame - the format must be told from where the stream starts, nothing else"""
+    m = int.from_bytes(rng.choice(MAGICS), "little")
+    n = m + 65536 * rng.choice([0, 0, 1, 3])
+    k = rng.choice(["int", "int", "int-in-tuple", "str-len", "bytes-len", "frame-len-str", "frame-len-bytes", "frame-len-bytearray", "str-content"])
+    if k == "int":
+        return ["i", str(n)]
+    if k == "int-in-tuple":
+        return ["T", [["i", str(n)], ["s", "t"], ["i", str(m)]]]
+    L = m + (65536 if m < 300 else 0)      # lengths above 255 use the 4-byte length opcodes
+    if k == "str-len":
+        return ["s", "s" * L]
+    if k == "bytes-len":
+        return ["y", "41" * L]
+    if k == "frame-len-str":
+        return ["s", "s" * (L - 7)]
+    if k == "frame-len-bytes":
+        return ["y", "41" * (L - 7)]
+    if k == "frame-len-bytearray":
+        return ["B", "41" * (L - 11)]
+    return ["s", rng.choice(["", "a", "ab", "abc"]) + rng.choice(MAGICS).decode("latin-1") + "tail"]
+
+
 def gen_object(rng, tier):
     r = rng.random()
+    if rng.random() < 0.09:
+        return magic_collision(rng), "magic"
     if rng.random() < 0.012:
         # a very long constant / short-period run: one 8192-byte compressed block then inflates to many MiB
         kind = rng.choice(["zeros", "zeros", "ab"])
@@ -106,12 +136,14 @@ def run_case(case, ctx):
         obj = with_arrays(obj, rng)
         klass += "+arrays"
     can = gen_obj.canon(spec) if klass.startswith(("plain", "aliased")) else f"{klass}:{spec}"
-    ctx.count({"big": "big_payloads", "aliased": "aliased_objects", "huge-run": "huge_run_payloads"}.get(klass.split("+")[0], "plain_objects"))
+    ctx.count({"big": "big_payloads", "aliased": "aliased_objects", "huge-run": "huge_run_payloads", "magic": "objects_with_a_magic_number_inside_their_pickle"}.get(klass.split("+")[0], "plain_objects"))
     nontrivial = any(c in can for c in "[{<") or klass.startswith("big") or klass == "huge-run"
     d = harness.mkscratch("vjl-c03-")
     try:
         for combo in range(2 if klass == "huge-run" else (4 if klass.startswith("big") else 7)):
             compress = gen_compress(rng)
+            if klass == "magic" and rng.random() < 0.8:
+                compress = rng.choice([0, 0, False, ("zlib", 0)])
             if klass == "huge-run":
                 compress = rng.choice([("zlib", rng.choice([4, 6, 9])), ("gzip", rng.choice([4, 9])), 9, 6, ("zlib", 1), 0, ("bz2", 1)])
             if klass.startswith("big") and not (compress in (0, False) or compress == "zlib" or compress == "gzip" or
@@ -119,7 +151,7 @@ def run_case(case, ctx):
                                                 (isinstance(compress, tuple) and compress[0] in ("zlib", "gzip") and (compress[1] or 3) <= 3)):
                 compress = rng.choice([0, 1, 3, ("gzip", 1), "zlib"])
             protocol = rng.choice([None, 0, 1, 2, 3, 4, 5])
-            target = rng.choice(["path", "path", "path", "Path", "file", "bytesio", "reused-file", "reused-bytesio", "write-only-sink"])
+            target = rng.choice(["path", "path", "path", "Path", "file", "bytesio", "reused-file", "reused-bytesio", "write-only-sink", "file-after-header"])
             if klass in ("huge-run",) or klass.startswith("big"):
                 target = rng.choice(["path", "path", "Path", "file", "bytesio"])
             if target == "write-only-sink" and "arrays" in klass:
@@ -128,7 +160,7 @@ def run_case(case, ctx):
             load_from = rng.choice(["path", "file", "bytesio"]) if target in ("path", "Path", "file") else "bytesio"
             if target == "write-only-sink":
                 load_from = "bytesio"
-            if target.startswith("reused"):
+            if target.startswith("reused") or target == "file-after-header":
                 load_from = "same-object"
             desc = dict(object=can[:300], klass=klass, compress=compress, protocol=protocol, target=target, ext=ext, load_from=load_from)
             path = os.path.join(d, f"f{combo}{ext}")
@@ -160,6 +192,21 @@ def run_case(case, ctx):
                         joblib.dump(obj, sink, compress=compress, protocol=protocol)
                         raw = b"".join(sink.parts)
                         ctx.count("dumps_to_a_write_only_sink")
+                    elif target == "file-after-header":
+                        # the dump is the payload of a container: an open file in which h header bytes come first; it is
+                        # loaded from a file object that has read exactly those h bytes (h around the sizes of read buffers:
+                        # only a few bytes of the dump are then left in the reader's buffer)
+                        h = rng.choice([1, 7, 64, 4090, 4091, 4093, 4095, 4096, 8186, 8187, 8188, 8189, 8190, 8191, 8192, 8193, 16383, 65535])
+                        desc["header_bytes"] = h
+                        with open(path, "wb") as f:
+                            f.write(rng.randbytes(h))
+                            joblib.dump(obj, f, compress=compress, protocol=protocol)
+                        with open(path, "rb") as f:
+                            f.read(h)
+                            back = joblib.load(f)
+                        with open(path, "rb") as f:
+                            raw = f.read()[h:]
+                        ctx.count("loads_from_a_file_positioned_after_a_header")
                     elif target.startswith("reused"):
                         # the target already holds longer, older content and is overwritten from its start: what follows the
                         # new dump is old data - junk, another compressor's magic number, or a complete older dump
@@ -203,7 +250,7 @@ def run_case(case, ctx):
                         bio = io.BytesIO()
                         joblib.dump(obj, bio, compress=compress, protocol=protocol)
                         raw = bio.getvalue()
-                    if target not in ("bytesio", "write-only-sink") and not target.startswith("reused"):
+                    if target not in ("bytesio", "write-only-sink", "file-after-header") and not target.startswith("reused"):
                         with open(path, "rb") as f:
                             raw = f.read()
                     if load_from == "same-object":
